@@ -9,7 +9,6 @@ import (
 	"fmt"
 	"reflect"
 	"sort"
-	"sync/atomic"
 )
 
 // Order modes.
@@ -41,12 +40,12 @@ func ModeName(m int) string {
 //
 //go:norace
 func Keys[M ~map[K]V, K comparable, V any](m M) []K {
-	atomic.AddInt64(&Calls, 1)
+	mode := pick()
 	ks := make([]K, 0, len(m))
 	for k := range m {
 		ks = append(ks, k)
 	}
-	if Mode == Native || len(ks) < 2 {
+	if mode == Native || len(ks) < 2 {
 		return ks
 	}
 	var less func(a, b K) bool
@@ -65,19 +64,10 @@ func Keys[M ~map[K]V, K comparable, V any](m M) []K {
 		// value types: order by their printed form (deterministic for structs of basic fields)
 		less = func(a, b K) bool { return fmt.Sprintf("%#v", a) < fmt.Sprintf("%#v", b) }
 	default:
-		atomic.AddInt64(&Unordered, 1)
+		unordered()
 		return ks
 	}
 	sort.SliceStable(ks, func(i, j int) bool { return less(ks[i], ks[j]) })
-	mode := Mode
-	if mode == Alternating || mode == AlternatingOdd {
-		n := atomic.AddInt64(&seq, 1)
-		if (n%2 == 0) == (mode == Alternating) {
-			mode = Descending
-		} else {
-			mode = Ascending
-		}
-	}
 	switch mode {
 	case Descending:
 		for i, j := 0, len(ks)-1; i < j; i, j = i+1, j-1 {
@@ -92,8 +82,31 @@ func Keys[M ~map[K]V, K comparable, V any](m M) []K {
 
 var seq int64
 
+// pick counts the call and resolves the alternating modes. It must not synchronise: an atomic operation here would
+// order all map iterations of different goroutines for ThreadSanitizer and hide the races of the code under test
+// (the bookkeeping itself is invisible to the detector: norace).
+//
+//go:norace
+func pick() int {
+	Calls++
+	mode := Mode
+	if mode == Alternating || mode == AlternatingOdd {
+		seq++
+		if (seq%2 == 0) == (mode == Alternating) {
+			return Descending
+		}
+		return Ascending
+	}
+	return mode
+}
+
+//go:norace
+func unordered() { Unordered++ }
+
 // ResetSeq restarts the call parity of the alternating modes (called by the engine before every run of a case).
-func ResetSeq() { atomic.StoreInt64(&seq, 0) }
+//
+//go:norace
+func ResetSeq() { seq = 0 }
 
 // On reports whether the seam is compiled in (set by the generated code's init).
 var On bool
